@@ -151,6 +151,16 @@ def r2(F, R):
                     if kb is not None and any(callee_is(t, r"FutureExt::catch_unwind$") for nb in F.nested(kb) for _, t in nb.calls()):
                         from_catch = True
         inst = f"payload/{name}@{F.root_fn(b).short.rsplit('::', 1)[-1]}/{s.loc.rsplit(':', 1)[-1] if False else ''}"
+        # the caught `Box<dyn Any + Send>` must be converted (Info::from / into), never wrapped as a value of its own
+        ch = A.receiver_chain(b, op)
+        rewrapped = False
+        for cs, ct in ch[:1]:
+            cb = F.callee_body(ct)
+            f = op_fn(ct["func"])
+            if cb is not None and f and any("dyn std::any::Any" in ta for ta in f.get("targs", [])) and any(callee_is(t2, r"Arc::<.*>::new$") for _, t2 in cb.calls()):
+                rewrapped = True
+        R.check(not rewrapped, f"payload-not-rewrapped/{name}@{F.root_fn(b).short.rsplit('::', 1)[-1]}", s, "Box<dyn Any> is converted with From/Into",
+                f"{name}: the caught panic payload (Box<dyn Any + Send>) is wrapped as a value into a new Arc instead of being converted — downcasting it to String/&str/user types fails")
         R.check(from_catch or from_fmt, f"payload/{name}@{F.root_fn(b).short.rsplit('::', 1)[-1]}", s,
                 "failure payload derives from the caught panic (or the World-init error text)",
                 f"{name} is not built from the caught panic payload")
